@@ -50,7 +50,11 @@ def parseTx? (s : String) : Option TxAbs :=
   | [id, ins, outs, lock, _ver, fee, vsize, ssize, size, bits] => do
     let id ← id.toNat?
     let ins ← (splitList ins ",").mapM parseIn?
-    let nOuts := (splitList outs ",").length
+    -- `nOuts` counts the spendable outputs; provably unspendable (null-data) outputs come last in every
+    -- transaction the harness builds and never enter the utxo set or a utxo view
+    let kinds := (splitList outs ",").map (fun o => (o.splitOn ".").getD 1 "")
+    let nOuts := (kinds.filter (· != "n")).length
+    if kinds.drop nOuts != List.replicate (kinds.length - nOuts) "n" then none
     let b ← bits.toNat?
     let vsize ← vsize.toNat?
     if vsize = 0 then none
